@@ -405,6 +405,120 @@ fn check_borrowed<'a>(
     ))
 }
 
+/// The same frame answered to the methods of a generated proxy (`PxProxy`: unit output with a
+/// declared error enum / with the empty enum, struct output, a streaming method). The proxy's
+/// result must be what the reference says about the frame for the method's (output, error) types;
+/// the streaming method must yield the frame's classification as its first item - a reply that
+/// carries `error` must not vanish from the stream any more than it may turn into a success.
+fn check_proxy(frame: &[u8], has_error: bool, stats: &mut Stats) -> Vec<Fail> {
+    use vcommon::types::PxProxy;
+    let mut fails = Vec::new();
+    let mk = || {
+        let mut data = frame.to_vec();
+        data.push(0);
+        let (sock, _h) = SimSocket::with_script([ReadEv::Data(data), ReadEv::Eof]);
+        Connection::new(sock)
+    };
+    let mut judge = |what: &str, expect: Expect, got: Outcome, stats: &mut Stats| {
+        stats.eval();
+        stats.class("via-proxy-method");
+        if !expect.admits(&got) {
+            let sig = if has_error && matches!(&got, Outcome::Msg(m) if m.starts_with("success")) {
+                "error-reply-reported-as-success"
+            } else if has_error {
+                "error-reply-misclassified"
+            } else {
+                "success-reply-misclassified"
+            };
+            fails.push(Fail::new(sig, format!("proxy method {what} answered with {}: expected {:?}, got {:?}", String::from_utf8_lossy(frame), expect, got)));
+        }
+    };
+    {
+        let mut conn = mk();
+        let got = match run_until_ready(conn.ping(), 64) {
+            Some(r) => classify_reply(r.map(|r| r.map(|()| Reply::new(None::<()>)))),
+            None => Outcome::Pending,
+        };
+        judge("ping() -> Result<(), ErrA>", proxy_expect::<ErrA>(frame), got, stats);
+    }
+    {
+        let mut conn = mk();
+        let got = match run_until_ready(conn.touch("k"), 64) {
+            Some(r) => classify_reply(r.map(|r| r.map(|()| Reply::new(None::<()>)))),
+            None => Outcome::Pending,
+        };
+        judge("touch() -> Result<(), ErrNone>", proxy_expect::<ErrNone>(frame), got, stats);
+    }
+    {
+        let mut conn = mk();
+        let got = match run_until_ready(conn.get("k"), 64) {
+            Some(Ok(Ok(v))) => Outcome::Msg(format!("success-output {v:?}")),
+            Some(Ok(Err(e))) => Outcome::Msg(format!("method-error {e:?}")),
+            Some(Err(e)) => vcommon::rx::classify_err(&e),
+            None => Outcome::Pending,
+        };
+        // the proxy strips the envelope of a success: compare on the parameters
+        let expect = match ref_reply::<OptParams, ErrA>(frame) {
+            Expect::Exactly(Outcome::Msg(m)) if m.starts_with("success") => match serde_json::from_slice::<Reply<OptParams>>(frame).ok().and_then(|r| r.into_parameters()) {
+                Some(p) => Expect::Exactly(Outcome::Msg(format!("success-output {p:?}"))),
+                None => Expect::Exactly(Outcome::Other("MissingParameters".into())),
+            },
+            other => other,
+        };
+        let admitted = match (&expect, &got) {
+            (Expect::Exactly(Outcome::Other(_)), g) => !matches!(g, Outcome::Msg(_)),
+            _ => expect.admits(&got),
+        };
+        if admitted {
+            stats.eval();
+            stats.class("via-proxy-method");
+        } else {
+            judge("get() -> Result<OptParams, ErrA>", expect, got, stats);
+        }
+    }
+    {
+        // streaming method: first item
+        let mut conn = mk();
+        let first = match run_until_ready(conn.watch(), 64) {
+            Some(Ok(stream)) => {
+                let mut stream = std::pin::pin!(stream);
+                let mut first = None;
+                for _ in 0..8 {
+                    match vcommon::exec::poll_next_once(stream.as_mut()) {
+                        std::task::Poll::Ready(Some(item)) => {
+                            first = Some(classify_reply(item.map(|r| r.map(|()| Reply::new(None::<()>)))));
+                            break;
+                        }
+                        std::task::Poll::Ready(None) => {
+                            first = Some(Outcome::Other("stream ended without yielding anything for the reply".into()));
+                            break;
+                        }
+                        std::task::Poll::Pending => {}
+                    }
+                }
+                first.unwrap_or(Outcome::Pending)
+            }
+            Some(Err(e)) => vcommon::rx::classify_err(&e),
+            None => Outcome::Pending,
+        };
+        // continues / parameters of a success are not visible through a unit-output stream item
+        let expect = proxy_expect::<ErrA>(frame);
+        judge("watch() -> Stream<Result<(), ErrA>> (first item)", expect, first, stats);
+    }
+    fails
+}
+
+/// Reference for a unit-output proxy method: a success is reported as `Ok(Ok(()))` whatever its
+/// parameters / continues members were (shown as the empty reply), everything else as for
+/// `receive_reply::<IgnoredAny-like unit, E>`.
+fn proxy_expect<'a, E: Deserialize<'a> + Debug>(frame: &'a [u8]) -> Expect {
+    match ref_reply::<serde::de::IgnoredAny, E>(frame) {
+        Expect::Exactly(Outcome::Msg(m)) if m.starts_with("success") => Expect::Exactly(Outcome::Msg(format!("success {:?}", Reply::new(None::<()>)))),
+        Expect::DecodeErrOr(Outcome::Msg(m)) if m.starts_with("success") => Expect::DecodeErrOr(Outcome::Msg(format!("success {:?}", Reply::new(None::<()>)))),
+        other => other,
+    }
+}
+
 /// Check one frame against every (P, E) combination. Returns all failures.
 pub fn check_frame(frame: &str, stats: &mut Stats) -> Vec<Fail> {
     let doc: Value = match serde_json::from_str(frame) {
@@ -443,6 +557,7 @@ pub fn check_frame(frame: &str, stats: &mut Stats) -> Vec<Fail> {
     if let Err(x) = check_borrowed(f, s, &doc, has_error, stats) {
         fails.push(x);
     }
+    fails.extend(check_proxy(f, has_error, stats));
     fails
 }
 
